@@ -1066,6 +1066,15 @@ def r07e(R):
     R.check(f, 'rgb_to_raw: round(clamp(x * 65535, 0, 65535)) (found %s)' % (found,),
             ok, 'the HSV components of an rgb colour are not scaled by exactly '
             '65535 / clamped to 0..65535 / rounded')
+    from .c07 import nan_absorbed
+    for p, body in bodies:
+        if any(isinstance(x, ast.Call) and norm(x.func) in ('min', 'max')
+               for x in ast.walk(body)):
+            R.check(f, 'NaN: %s' % norm(body)[:60], nan_absorbed(body, p),
+                    'the clamp of rgb_to_raw does not absorb NaN (the value is '
+                    'the first argument of the outer min / max): a NaN colour '
+                    'register reaches round(), which raises, and the machine '
+                    'stops')
 
 
 @rule('R06.m', ('C06',), 'a token without text never equals a piece of text',
